@@ -89,7 +89,11 @@ LengthExact ==
   /\ IsBad(DecodeStrict(Append(b, 0), 3)) /\ IsBad(DecodeStrict(Append(b, 0), 4))
   /\ IsBad(DecodeStrict(SubSeq(b, 1, Len(b) - 1), 3)) /\ IsBad(DecodeStrict(SubSeq(b, 1, Len(b) - 1), 4))
 Qos3Rejected ==
-  p.t = "PUBLISH" => LET b == Encode(p) IN IsBad(DecodeLenient([b EXCEPT ![1] = 48 + 6 + p.retain], 4))
+  \* both QoS bits set: refused by the strict grammar; the lenient decoder (the implementation's) either refuses it too or
+  \* passes it on as qos = 3, never as a message of QoS 0, 1 or 2
+  p.t = "PUBLISH" => LET b == Encode(p)  b3 == [b EXCEPT ![1] = 48 + 6 + p.retain]  d == DecodeLenient(b3, 4) IN
+                     /\ IsBad(DecodeStrict(b3, 4)) /\ IsBad(DecodeStrict(b3, 3))
+                     /\ (IsBad(d) \/ (d.t = "PUBLISH" /\ d.qos = 3))
 Live == p.t # "none"
 Inv_RoundTrip    == Live => RoundTrip
 Inv_DupOnlyIn31  == Live => DupOnlyIn31
